@@ -148,6 +148,7 @@ pub fn run(a: &Args) {
         let hostile = rng.chance(1, 12);
         let mut kinds = std::collections::BTreeSet::new();
         let mut panicked = false;
+        let mut last_blob: Vec<u8> = Vec::new();
         for _ in 0..nops {
             let ri = rng.below(recs.len() as u64) as usize;
             // the 1232-byte context record is drawn less often to keep cases small
@@ -179,7 +180,10 @@ pub fn run(a: &Args) {
                 7 => { let n = rng.below(5) as usize; let vs: Vec<Vec<u128>> = (0..n).map(|_| gen_fields(&mut rng, &w)).collect();
                        line.u(5).z(n).z(esz); for f in &vs { put_fields(&mut line, &w, f); } out.count("op.alloc_from_iter"); kinds.insert(5);
                        let s = r.from_iter(&mut b, &vs)?; let l = s.loc(); arrays.push((ri, n, s)); Some(l) }
-                8 => { let n = rng.below(40) as usize; let bs: Vec<u8> = (0..n).map(|_| rng.next() as u8).collect();
+                8 => { let n = rng.below(40) as usize;
+                       // a blob of zeros (what a reserved slot at the end of the image holds), the previous blob again, or fresh bytes
+                       let bs: Vec<u8> = match rng.below(4) { 0 => vec![0u8; n], 1 if !last_blob.is_empty() => last_blob.clone(), _ => (0..n).map(|_| rng.next() as u8).collect() };
+                       last_blob = bs.clone();
                        line.u(7).vec(&bs); out.count("op.write_bytes"); kinds.insert(7);
                        // write_bytes and alloc_from_array (Copy element types) both go through u8 here
                        let w = if rng.chance(1, 2) { MemoryArrayWriter::<u8>::write_bytes(&mut b, &bs) } else { MemoryArrayWriter::<u8>::alloc_from_array(&mut b, &bs).ok()? };
